@@ -210,6 +210,42 @@ Example read_path_applies :
   length (group_rows (concat (map (stored_rows city16 0%N) Ps))) = 6%nat.
 Proof. exact ex_db_hypotheses. Qed.
 
+(* What a statement of the accepted shape computes: for every statement accepted by stmt_ok (the check evaluates stmt_ok on
+   the statement parsed from the text the real service sends), every database of stored `tree` arrays with int64 values,
+   the generic evaluator eval_merge_stmt returns -- up to order -- the GROUP BY (parent, function, node) sums of the
+   stored elements of the profiles inside the window, projected on the selected type by arrayFirst, provided the groups
+   fit the statement's LIMIT. *)
+Theorem statement_semantics : forall (toks : list Z) (ty : nat) (s : merge_stmt) (db : list sprof),
+  stmt_ok ty s = true ->
+  let pre := pre_rows (nth ty toks (-2)) s db in
+  Forall row_in_range pre -> Z.of_nat (length (group_rows pre)) <= ms_limit s ->
+  exists rows, eval_merge_stmt toks s db = Some rows /\ Permutation rows (group_rows pre).
+Proof. exact stmt_semantics. Qed.
+Print Assumptions statement_semantics.
+
+(* ... hence the whole read path under the statement the service really sends: the database holds, for every ingested
+   profile (timestamp, names of its sample types, samples), the tree the writer stores for it (stored_tree); for a
+   statement of the accepted shape the answer exists and whatever MergeTrie makes of it conserves, and the bars under
+   its root add up to the weights of the profiles in the statement's window that have the selected type. *)
+Theorem statement_read_path : forall (h : N -> N -> N) (na : N) (toks : list Z) (ty : nat) (s : merge_stmt) (D : list pentry),
+  stmt_ok ty s = true ->
+  let tok := nth ty toks (-2) in
+  let Ps := map snd (filter (in_window (ms_from s) (ms_to s)) (map (stored_of tok) D)) in
+  Forall (stored_ok h na) Ps ->
+  Z.of_nat (length (concat (map (stored_rows h na) Ps))) <= ms_limit s ->
+  exists rows, eval_merge_stmt toks s (map (sprof_of h na) D) = Some rows /\
+    forall fs, let out := rows_of (m_nodes (merge_trie (ms_limit s) new_tree rows fs)) in
+               rconserves out /\ eqm (rchild_tot out 0%N) (sumZ (map stored_weight Ps)).
+Proof. exact ProfSqlProofs.statement_read_path. Qed.
+Print Assumptions statement_read_path.
+
+Example statement_read_path_applies :
+  stmt_ok 0 ex_stmt = true /\
+  let Ps := map snd (filter (in_window (ms_from ex_stmt) (ms_to ex_stmt)) (map (stored_of 0) ex_D)) in
+  Forall (stored_ok city16 0%N) Ps /\ length (concat (map (stored_rows city16 0%N) Ps)) = 12%nat /\
+  option_map (@length row) (eval_merge_stmt [0] ex_stmt (map (sprof_of city16 0%N) ex_D)) = Some 6%nat.
+Proof. exact ex_stmt_hypotheses. Qed.
+
 (* GROUP BY with wrapping sums keeps conservation and never needs more rows than the raw hand-over *)
 Theorem grouping_keeps_conservation : forall rows : list row,
   (rconserves rows -> rconserves (group_rows rows)) /\ (length (group_rows rows) <= length rows)%nat.
